@@ -536,6 +536,15 @@ class ExprMixin(object):
             ka = a.hint.kind if a.hint is not None else None
             if ka == 'str':
                 return self.str_repeat(st, a, b)
+            if getattr(self, 'abstract_products', False) and self.const_int(a) is None and self.const_int(b) is None:
+                # nonlinear product: kept uninterpreted (commutative by canonical argument order); only congruence is
+                # available to the solver, which is what the offset-sum obligations need
+                x, y = simp(ai), simp(bi)
+                if str(x) > str(y):
+                    x, y = y, x
+                uf = self.get_uf('nlmul', IntS, IntS, IntS)
+                self.trust('products of two non-constant integers are uninterpreted (congruence + commutativity only)')
+                return V(mkI(uf(x, y)), parse_spec('int'))
             return V(mkI(ai * bi), parse_spec('int'))
         if isinstance(op, pyast.Pow):
             ca, cb = self.const_int(a), self.const_int(b)
